@@ -39,7 +39,7 @@ var tparamRe = regexp.MustCompile(`\b(RP|QP|PV|K|V|M|R|P|T)\b`)
 // canonType renders a type with module path prefixes removed and type
 // parameters replaced by positional names in order of first appearance.
 func canonType(t types.Type) string {
-	s := types.TypeString(t, func(p *types.Package) string { return p.Name() })
+	s := types.TypeString(t, func(p *types.Package) string { return core.NameOf(p) })
 	idx := map[string]string{}
 	return tparamRe.ReplaceAllStringFunc(s, func(m string) string {
 		if _, ok := idx[m]; !ok {
@@ -79,7 +79,7 @@ func clientSide(c *core.Ctx, inf *types.Info, name string) *clientInfo {
 			return true
 		}
 		methodArg := -1
-		switch cf.Name() {
+		switch core.NameOf(cf) {
 		case "NewGetRequest":
 			ci.verb, methodArg = "GET", 4
 		case "NewDeleteRequest":
@@ -102,7 +102,7 @@ func clientSide(c *core.Ctx, inf *types.Info, name string) *clientInfo {
 		}
 		if methodArg >= 0 && methodArg < len(call.Args) {
 			if k, ok := core.ObjOf(inf, call.Args[methodArg]).(*types.Const); ok {
-				ci.method = k.Name()
+				ci.method = core.NameOf(k)
 			}
 		}
 		return true
@@ -146,13 +146,13 @@ func serverSide(c *core.Ctx, inf *types.Info, name string) *serverInfo {
 			return true
 		}
 		cf := core.Callee(inf, call)
-		if cf == nil || !strings.HasPrefix(cf.Name(), "register") || len(call.Args) < 3 {
+		if cf == nil || !strings.HasPrefix(core.NameOf(cf), "register") || len(call.Args) < 3 {
 			return true
 		}
 		if k, ok := core.ObjOf(inf, call.Args[2]).(*types.Const); ok {
-			si.method = k.Name()
+			si.method = core.NameOf(k)
 		}
-		switch cf.Name() {
+		switch core.NameOf(cf) {
 		case "registerFinder":
 			si.method = "Method_finder"
 		case "registerAction":
@@ -282,7 +282,7 @@ func runR022(c *core.Ctx) {
 				}
 			case *ast.CallExpr:
 				if cf := core.Callee(inf, x); cf != nil {
-					got[cf.Name()] = true
+					got[core.NameOf(cf)] = true
 				}
 			}
 			return true
